@@ -77,6 +77,62 @@ CallCtx g_callctx;
 uint64_t g_calls_total = 0;
 void (*g_cc_violation)(const char *, const char *) = nullptr;
 
+Preempt g_pre;
+#include <signal.h>
+#include <ucontext.h>
+static void
+on_step(int, siginfo_t *, void *uc_)
+{
+        ucontext_t *uc = (ucontext_t *) uc_;
+        if (!g_pre.stepping) {
+                uc->uc_mcontext.gregs[REG_EFL] &= ~0x100ll;
+                return;
+        }
+        if ((char *) uc->uc_mcontext.gregs[REG_RIP] == sim_call_after) {
+                // the call returned before the pre-emption point was reached
+                g_pre.stepping = 0;
+                uc->uc_mcontext.gregs[REG_EFL] &= ~0x100ll;
+                return;
+        }
+        if (++g_pre.count < g_pre.n)
+                return;
+        g_pre.stepping = 0;
+        g_pre.armed = 0;
+        g_pre.fired = 1;
+        uc->uc_mcontext.gregs[REG_EFL] &= ~0x100ll;
+        // the "other thread" runs now; the trampoline's pre-call records belong to the interrupted call
+        const uint64_t rsp_call = g_tramp_out.rsp_call, saved_rsp = g_tramp_saved_rsp;
+        const uint32_t mxcsr_in = g_tramp_out.mxcsr_in;
+        const char *name = g_callctx.name;
+        g_pre.fn(g_pre.arg);
+        g_tramp_out.rsp_call = rsp_call;
+        g_tramp_saved_rsp = saved_rsp;
+        g_tramp_out.mxcsr_in = mxcsr_in;
+        g_callctx.name = name;
+}
+
+void
+preempt_install()
+{
+        struct sigaction sa;
+        memset(&sa, 0, sizeof sa);
+        sa.sa_sigaction = on_step;
+        sa.sa_flags = SA_SIGINFO | SA_ONSTACK;
+        sigemptyset(&sa.sa_mask);
+        sigaction(SIGTRAP, &sa, nullptr);
+}
+
+static bool
+preemptible(const char *name)
+{
+        // calls that only read, or hand out a slot, are not worth a pre-emption point
+        static const char *skip[] = { "get_next_job", "get_next_burst", "queue_size", "imb_get_errno", "imb_get_strerror", nullptr };
+        for (int i = 0; skip[i]; i++)
+                if (!strcmp(name, skip[i]))
+                        return false;
+        return true;
+}
+
 uint64_t
 tcallv(const char *name, void *fn, int n, const uint64_t *v)
 {
@@ -98,7 +154,17 @@ tcallv(const char *name, void *fn, int n, const uint64_t *v)
                 p.canary[k] = splitmix64(s) | 0x0100000000000001ull;
         p.flags = g_callctx.scrub ? 3 : 0;
         g_callctx.name = name;
+        if (g_pre.armed && !g_pre.stepping && !g_pre.fired && preemptible(name)) {
+                g_pre.count = 0;
+                g_pre.stepping = 1;
+                p.flags |= 4;
+        }
         uint64_t r = sim_call(&p);
+        if (p.flags & 4) {
+                g_pre.stepping = 0;
+                if (!g_pre.fired)
+                        g_pre.armed = 0; // one attempt per request: the call was shorter than the requested point
+        }
         const tramp_out &o = g_tramp_out;
         // calling convention invariant (C18)
         static const int idx[6] = { 1, 6, 12, 13, 14, 15 }; // rbx rbp r12..r15 in gpr[]
